@@ -6,11 +6,15 @@ import (
 	"encoding/json"
 	"flag"
 	"fmt"
+	"math/rand"
 	"os"
 	"runtime"
 	"time"
 
+	"github.com/jamf/regatta/regattapb"
+	"github.com/jamf/regatta/regattaserver"
 	"github.com/jamf/regatta/storage"
+	"google.golang.org/grpc"
 
 	"verif/harness/internal/tracer"
 )
@@ -153,16 +157,138 @@ func queueRun(tr *tracer.T, steps []qStep, nw int) bool {
 	return wedged
 }
 
+// queueRandom : long random schedules with many waiters and revisions (Go side; TLC validates)
+func queueRandomSteps(rng *rand.Rand, nw, n int) []qStep {
+	var steps []qStep
+	added := 0
+	for len(steps) < n {
+		switch x := rng.Intn(100); {
+		case x < 40 && added < nw:
+			added++
+			steps = append(steps, qStep{A: "add", W: added, T: []string{"t", "t", "t", "u"}[rng.Intn(4)], R: uint64(rng.Intn(12))})
+		case x < 55 && added > 0:
+			steps = append(steps, qStep{A: "cancel", W: 1 + rng.Intn(added)})
+		case x < 70:
+			steps = append(steps, qStep{A: "sweep"})
+		case x < 85:
+			steps = append(steps, qStep{A: "notify", T: []string{"t", "t", "u"}[rng.Intn(3)], R: uint64(rng.Intn(12))})
+		case added > 0:
+			steps = append(steps, qStep{A: "read", W: 1 + rng.Intn(added)})
+		}
+	}
+	return steps
+}
+
+// fakeLeader answers forwarded writes with a chosen revision (the leader cluster behind the follower)
+type fakeLeader struct {
+	regattapb.KVClient
+	rev       uint64
+	succeeded bool
+}
+
+func (f *fakeLeader) Put(ctx context.Context, in *regattapb.PutRequest, _ ...grpc.CallOption) (*regattapb.PutResponse, error) {
+	return &regattapb.PutResponse{Header: &regattapb.ResponseHeader{Revision: f.rev}}, nil
+}
+func (f *fakeLeader) DeleteRange(ctx context.Context, in *regattapb.DeleteRangeRequest, _ ...grpc.CallOption) (*regattapb.DeleteRangeResponse, error) {
+	return &regattapb.DeleteRangeResponse{Header: &regattapb.ResponseHeader{Revision: f.rev}}, nil
+}
+func (f *fakeLeader) Txn(ctx context.Context, in *regattapb.TxnRequest, _ ...grpc.CallOption) (*regattapb.TxnResponse, error) {
+	return &regattapb.TxnResponse{Succeeded: f.succeeded, Header: &regattapb.ResponseHeader{Revision: f.rev}}, nil
+}
+
+// queueForward : the real ForwardingKVServer over the real queue. A forwarded write acknowledged by the leader at
+// revision r must not be acknowledged by the follower API before this node has applied >= r.
+func queueForward(tr *tracer.T, rng *rand.Rand) {
+	tr.Emit(map[string]any{"ev": "reset"})
+	storage.VerifSweepC = func() <-chan time.Time { return make(chan time.Time) }
+	q := storage.NewNotificationQueue()
+	go q.Run()
+	defer q.Close()
+	applied := uint64(0)
+	for w := 1; w <= 10; w++ {
+		rev := applied + uint64(1+rng.Intn(3))
+		fl := &fakeLeader{rev: rev, succeeded: rng.Intn(2) == 0}
+		srv := regattaserver.NewForwardingKVServer(nil, fl, q)
+		op := []string{"put", "delete", "txn"}[rng.Intn(3)]
+		done := make(chan error, 1)
+		go func() {
+			ctx, cancel := context.WithTimeout(context.Background(), 10*time.Second)
+			defer cancel()
+			var err error
+			switch op {
+			case "put":
+				_, err = srv.Put(ctx, &regattapb.PutRequest{Table: []byte("t"), Key: []byte("k"), Value: []byte("v")})
+			case "delete":
+				_, err = srv.DeleteRange(ctx, &regattapb.DeleteRangeRequest{Table: []byte("t"), Key: []byte("k")})
+			default:
+				_, err = srv.Txn(ctx, &regattapb.TxnRequest{Table: []byte("t"),
+					Compare: []*regattapb.Compare{{Key: []byte("k"), Result: regattapb.Compare_EQUAL, Target: regattapb.Compare_VALUE, TargetUnion: &regattapb.Compare_Value{Value: []byte("x")}}},
+					Success: []*regattapb.RequestOp{{Request: &regattapb.RequestOp_RequestPut{RequestPut: &regattapb.RequestOp_Put{Key: []byte("k"), Value: []byte("a")}}}},
+					Failure: []*regattapb.RequestOp{{Request: &regattapb.RequestOp_RequestPut{RequestPut: &regattapb.RequestOp_Put{Key: []byte("k"), Value: []byte("b")}}}}})
+			}
+			done <- err
+		}()
+		tr.Emit(map[string]any{"ev": "fwd", "w": w, "t": "t", "r": rev, "op": op, "succeeded": fl.succeeded})
+		observe := func(wait time.Duration) {
+			select {
+			case err := <-done:
+				es := ""
+				if err != nil {
+					es = err.Error()
+				}
+				done <- err
+				tr.Emit(map[string]any{"ev": "fwdobs", "w": w, "returned": true, "err": es})
+			case <-time.After(wait):
+				tr.Emit(map[string]any{"ev": "fwdobs", "w": w, "returned": false, "err": ""})
+			}
+		}
+		// replication is still behind: a lower notification, then the one that covers the write
+		if rev > applied+1 {
+			q.Notify("t", rev-1)
+			q.Len("t")
+			tr.Emit(map[string]any{"ev": "notify", "t": "t", "r": rev - 1})
+		}
+		observe(60 * time.Millisecond)
+		q.Notify("t", rev)
+		q.Len("t")
+		applied = rev
+		tr.Emit(map[string]any{"ev": "notify", "t": "t", "r": rev})
+		observe(2 * time.Second)
+		<-done
+	}
+}
+
 func init() {
 	subcmds["queue"] = func(args []string) int {
 		fs := flag.NewFlagSet("queue", flag.ExitOnError)
 		out := fs.String("out", "trace.ndjson", "trace")
 		only := fs.Int("only", -1, "only behaviour k")
 		in := fs.String("in", "", "TLC-generated behaviours")
+		seed := fs.Int64("seed", 1, "seed")
+		nrand := fs.Int("n", 0, "random behaviours (mode without --in)")
 		_ = fs.Parse(args)
 		tr, err := tracer.New(*out)
 		if err != nil {
 			die("%v", err)
+		}
+		if *in == "" {
+			for b := 0; b < *nrand; b++ {
+				if *only >= 0 && b != *only {
+					continue
+				}
+				rng := rand.New(rand.NewSource(*seed*4409 + int64(b)))
+				start := tr.Lines() + 1
+				if b%10 == 9 {
+					queueForward(tr, rng)
+				} else {
+					queueRun(tr, queueRandomSteps(rng, 20, 60), 24)
+				}
+				fmt.Printf("BEHAVIOUR %d lines %d-%d class 1\n", b, start, tr.Lines())
+			}
+			if err := tr.Close(); err != nil {
+				die("%v", err)
+			}
+			return 0
 		}
 		data, err := os.ReadFile(*in)
 		if err != nil {
